@@ -123,6 +123,19 @@ start :: fn do
     end
 end
 '''})
+    out.append({"name": "list_hetero_callbacks", "role": "list-callbacks-with-different-element-and-result-types", "dom": {"a": (0, 3), "b": (0, 3)}, "text": '''
+start :: fn do
+    l := [?a, ?b, 2]
+    print(l -> fold("", pu v: int, acc: str -> str do acc + as_str(v) + "," end))
+    print(l -> map(pu v: int -> str do as_str(v) + "!" end))
+    print(l -> map(pu v: int -> (int, bool) do (v, v > 1) end))
+    print(["a", "bb"] -> fold(0, pu v: str, acc: int -> int do acc * 10 + 1 end))
+    print(l -> list.find(pu v: int -> bool do v > 1 end))
+    n := 0
+    l -> for_each(fn v: int do n = n * 10 + v end)
+    print(n)
+end
+'''})
     out.append({"name": "math_helpers_int", "role": "math-helpers(int)", "dom": {"a": (0, 6), "b": (0, 6), "c": (0, 6)}, "text": '''
 start :: fn do
     a := ?a - 3
@@ -157,7 +170,7 @@ end
 def run(tier):
     t0 = time.time()
     art = common.artifacts()
-    return tvrun.tv_check("C18", tier, templates(tier), art["sylt"], t0,
+    return tvrun.tv_check("C18", tier, templates(tier), art["sylt"], t0, rejected_is_violation=True,
                           assumptions=tvrun.TV_ASSUMPTIONS + ["operation sequences: every concrete prefix of mutators of length <= %d (arguments symbolic) followed by one fully symbolic operation" % (1 if tier == "quick" else 2),
                                                               "element/key types int, str, (int,int); int arguments in [0,2], indices in [-1,2]",
                                                               "iteration order of Lua pairs over non-array keys is never observed by the templates (dicts and sets are only queried)",
